@@ -329,7 +329,9 @@ def run(ctx, drv):
     ctx.rule = ("tables = lists of (platform set, count); exhaustive over <=2 platforms with counts {absent,0,1,2,5} "
                 "(quick) / <=3 platforms with counts {absent,0,1,5} (thorough) x every platforms-argument subset; "
                 "random tables up to 8 platforms, counts up to 1e12. Non-trivial = distinct (table, platforms argument) "
-                "with >= 2 platforms, divergence defined and non-zero, coverage strictly between 0 and 100.")
+                "with >= 2 platforms, divergence defined and non-zero, coverage strictly between 0 and 100.  Clustering report: 40 (quick) / 400 "
+                "(thorough) tables over 2-7 platforms (plain letters, or names such as p2 / p10 / node2 / node10 whose natural and lexicographic "
+                "orders differ); every printed cell is compared, by its row and column labels, with the exact Jaccard distance.")
     ctx.assumptions += [
         "float result accepted when within 1e-9 relative of the exact rational (IEEE rounding is not modelled)",
         "reading of 'NaN exactly when undefined': coverage NaN iff no lines; average coverage NaN iff no lines or no platforms; "
